@@ -327,7 +327,44 @@ def make_subprocess():
     m = types.ModuleType("subprocess")
     m.__dict__.update({k: v for k, v in _real_subprocess.__dict__.items()
                        if not k.startswith("__")})
-    m.Popen = _unmodelled("subprocess", "Popen")
+
+    class Popen:
+        """fork+exec in the simulated kernel: a child of the caller with the
+        lowest free PID; no pipes.  Only what psutil.Popen touches."""
+
+        def __init__(self, args, **kw):
+            k = cur()
+            k._acc("fork", str(args)[:40])
+            try:
+                pid = k.alloc_pid()
+            except RuntimeError:
+                raise OSError(errno.EAGAIN, "Resource temporarily "
+                              "unavailable") from None
+            k.stat_inc("popen_fork")
+            k.spawn(pid=pid, ppid=k.self_pid, comm=str(args[0])[:15],
+                    is_child=True)
+            self.args = args
+            self.pid = pid
+            self.returncode = None
+            self.stdin = self.stdout = self.stderr = None
+
+        def poll(self):
+            if self.returncode is None:
+                try:
+                    pid, st = cur().k_waitpid(self.pid, _real_os.WNOHANG)
+                    if pid:
+                        self.returncode = _real_os.waitstatus_to_exitcode(st)
+                except ChildProcessError:
+                    self.returncode = 0
+            return self.returncode
+
+        def __enter__(self):
+            return self
+
+        def __exit__(self, *a):
+            return None
+
+    m.Popen = Popen
     return m
 
 
